@@ -388,7 +388,7 @@ func init() {
 	RegisterPlan("C13", func(tier string) *Plan {
 		return &Plan{
 			Prop: "C13", Level: "exploration", Engine: "medium",
-			Runs:   tierPick(tier, 200, 40000),
+			Runs:   tierPick(tier, 800, 100000),
 			Budget: tierPick(tier, 55*time.Second, 14*time.Minute),
 			Rule: "valid CARv1/CARv2 images built by the reference codec (incl. empty and identity blocks, duplicate roots) and medium faults on them: every located numeric field (v2 header fields, pragma length/version, header length/version, every section length and multihash length, index codec/count/width/length/offset fields) set to each of 21 boundary values and to neighbours of its current value, every truncation offset, seeded bit flips, zeroed/duplicated/dropped extents, appended garbage; x ZeroLengthSectionAsEOF on/off x section/header size limits placed around the real sizes. Only media that NewReader accepts count. Oracle (differential): Inspect(true) succeeds iff a hash-verifying BlockReader scan reaches io.EOF and a claimed index has a readable codec; when both succeed every Stats field equals the value computed from the scan's block sequence and the raw header bytes. " +
 				"An evaluation is one (medium, options); distinct non-trivial = accepted containers with distinct (image shape, fault locus, option class, outcome class)",
